@@ -15,6 +15,7 @@ import (
 	"time"
 
 	"github.com/pion/transport/v3/udp"
+	"golang.org/x/net/ipv4"
 	"verif/harness/common"
 )
 
@@ -30,6 +31,51 @@ type fakeConn struct {
 	in     chan dgram
 	closed bool
 	sent   int
+	// batch mode: datagrams waiting for the next ReadBatch calls
+	bq    []dgram
+	bwake chan struct{}
+	calls []int // number of datagrams returned by each ReadBatch call
+}
+
+// Read, Write and RemoteAddr exist only because ipv4.NewPacketConn asserts net.Conn.
+func (f *fakeConn) Read([]byte) (int, error)    { return 0, net.ErrClosed }
+func (f *fakeConn) Write(p []byte) (int, error) { return f.WriteTo(p, nil) }
+func (f *fakeConn) RemoteAddr() net.Addr        { return nil }
+
+// ReadBatch is the in-memory stand-in of recvmmsg: it returns as many waiting datagrams as fit.
+func (f *fakeConn) ReadBatch(ms []ipv4.Message, _ int) (int, error) {
+	for {
+		f.mu.Lock()
+		if f.closed {
+			f.mu.Unlock()
+			return 0, net.ErrClosed
+		}
+		if len(f.bq) > 0 {
+			n := 0
+			for n < len(ms) && n < len(f.bq) {
+				ms[n].N = copy(ms[n].Buffers[0], f.bq[n].p)
+				ms[n].Addr = f.bq[n].addr
+				n++
+			}
+			f.bq = f.bq[n:]
+			f.calls = append(f.calls, n)
+			f.mu.Unlock()
+			return n, nil
+		}
+		ch := f.bwake
+		f.mu.Unlock()
+		<-ch
+	}
+}
+
+func (f *fakeConn) WriteBatch(ms []ipv4.Message, _ int) (int, error) {
+	f.mu.Lock()
+	defer f.mu.Unlock()
+	if f.closed {
+		return 0, net.ErrClosed
+	}
+	f.sent += len(ms)
+	return len(ms), nil
 }
 
 func (f *fakeConn) ReadFrom(p []byte) (int, net.Addr, error) {
@@ -56,6 +102,8 @@ func (f *fakeConn) Close() error {
 	}
 	f.closed = true
 	close(f.in)
+	close(f.bwake)
+	f.bwake = make(chan struct{})
 	return nil
 }
 func (f *fakeConn) isClosed() bool {
@@ -70,9 +118,40 @@ func (f *fakeConn) SetWriteDeadline(time.Time) error { return nil }
 func (f *fakeConn) SetReadBuffer(int) error          { return nil }
 func (f *fakeConn) SetWriteBuffer(int) error         { return nil }
 
-func remoteAddr(r int) net.Addr {
-	// remotes share IPs and differ in ports, and the other way round
-	return &net.UDPAddr{IP: net.IPv4(10, 0, 0, byte(1+r%3)), Port: 1000 + r/3}
+// remotes share IPs and differ in ports, and the other way round; addrMode 0: IPv4, 1: IPv6 (loopback and
+// link-local addresses that differ only in the zone), 2: mixed
+func remoteAddr(mode, r int) *net.UDPAddr {
+	port := 1000 + r/3
+	switch mode {
+	case 1:
+		switch r % 3 {
+		case 0:
+			return &net.UDPAddr{IP: net.ParseIP("::1"), Port: port}
+		case 1:
+			return &net.UDPAddr{IP: net.ParseIP("fe80::1"), Port: port, Zone: "eth0"}
+		default:
+			return &net.UDPAddr{IP: net.ParseIP("fe80::1"), Port: port, Zone: "eth1"}
+		}
+	case 2:
+		switch r % 3 {
+		case 0:
+			return &net.UDPAddr{IP: net.IPv4(10, 0, 0, 1), Port: port}
+		case 1:
+			return &net.UDPAddr{IP: net.ParseIP("2001:db8::1"), Port: port}
+		default:
+			return &net.UDPAddr{IP: net.ParseIP("fe80::2"), Port: port, Zone: "eth0"}
+		}
+	}
+	return &net.UDPAddr{IP: net.IPv4(10, 0, 0, byte(1+r%3)), Port: port}
+}
+
+func remoteIndex(mode int, a net.Addr) int {
+	for r := 0; r < 12; r++ {
+		if remoteAddr(mode, r).String() == a.String() {
+			return r
+		}
+	}
+	return 99
 }
 
 func filterFor(kind int) func([]byte) bool {
@@ -86,6 +165,8 @@ func filterFor(kind int) func([]byte) bool {
 }
 
 type runner struct {
+	mode   int
+	batch  int
 	fake   *fakeConn
 	l      net.Listener
 	conns  []net.Conn // accepted, by id
@@ -93,21 +174,42 @@ type runner struct {
 	lcl    bool
 }
 
-func newRunner(backlog, fk int) *runner {
-	f := &fakeConn{in: make(chan dgram)}
+func newRunner(backlog, fk, mode, batch int) *runner {
+	f := &fakeConn{in: make(chan dgram), bwake: make(chan struct{})}
 	udp.VListenUDPHook = func(string, *net.UDPAddr) (udp.VerifPacketConn, error) { return f, nil }
 	lc := udp.ListenConfig{Backlog: backlog, AcceptFilter: filterFor(fk)}
+	if batch > 0 {
+		udp.VBatchConnHook = func() udp.BatchPacketConn { return f }
+		lc.Batch = udp.BatchIOConfig{Enable: true, ReadBatchSize: batch, WriteBatchSize: 2, WriteBatchInterval: time.Millisecond}
+	}
 	l, err := lc.Listen("udp", &net.UDPAddr{IP: net.IPv4(127, 0, 0, 1), Port: 0})
 	if err != nil {
 		panic(err)
 	}
 	synctest.Wait()
-	return &runner{fake: f, l: l}
+	return &runner{fake: f, l: l, mode: mode, batch: batch}
+}
+
+// flush hands the datagrams queued in batch mode to the read loop (several per ReadBatch call)
+func (r *runner) flush() {
+	if r.batch == 0 {
+		return
+	}
+	r.fake.mu.Lock()
+	if len(r.fake.bq) > 0 && !r.fake.closed {
+		close(r.fake.bwake)
+		r.fake.bwake = make(chan struct{})
+	}
+	r.fake.mu.Unlock()
+	synctest.Wait()
 }
 
 func (r *runner) sock() string { return common.B(r.fake.isClosed()) }
 
 func (r *runner) exec(op []string) []string {
+	if op[0] != "1" {
+		r.flush()
+	}
 	switch op[0] {
 	case "1":
 		if r.fake.isClosed() {
@@ -117,7 +219,15 @@ func (r *runner) exec(op []string) []string {
 		for i, s := range op[2:] {
 			p[i] = byte(common.AtoI(s))
 		}
-		r.fake.in <- dgram{p, remoteAddr(common.AtoI(op[1]))}
+		if r.batch > 0 {
+			// batch mode: arrivals pile up on the socket until the next other operation, then the read loop
+			// picks them up in batches; nothing else can observe the difference
+			r.fake.mu.Lock()
+			r.fake.bq = append(r.fake.bq, dgram{p, remoteAddr(r.mode, common.AtoI(op[1]))})
+			r.fake.mu.Unlock()
+			return []string{r.sock()}
+		}
+		r.fake.in <- dgram{p, remoteAddr(r.mode, common.AtoI(op[1]))}
 		synctest.Wait()
 		return []string{r.sock()}
 	case "2":
@@ -132,8 +242,7 @@ func (r *runner) exec(op []string) []string {
 		id := len(r.conns)
 		r.conns = append(r.conns, c)
 		r.closed = append(r.closed, false)
-		ua, _ := c.RemoteAddr().(*net.UDPAddr)
-		rem := int(ua.IP.To4()[3]) - 1 + 3*(ua.Port-1000)
+		rem := remoteIndex(r.mode, c.RemoteAddr())
 		return []string{"0", common.I(id), common.I(rem), r.sock()}
 	case "3":
 		id, k := common.AtoI(op[1]), common.AtoI(op[2])
@@ -178,17 +287,40 @@ func (r *runner) exec(op []string) []string {
 }
 
 func (r *runner) finish() {
+	r.flush()
 	_ = r.l.Close()
 	for _, c := range r.conns {
 		_ = c.Close()
 	}
 	synctest.Wait()
+	time.Sleep(time.Second) // lets the batch writer's ticker goroutine see the closed flag and exit
+	synctest.Wait()
 	udp.VListenUDPHook = nil
+	udp.VBatchConnHook = nil
 }
 
 func runHistory(h *common.History, rng *rand.Rand) {
 	backlog, fk := common.AtoI(h.Conf[0]), common.AtoI(h.Conf[1])
-	r := newRunner(backlog, fk)
+	mode, batch := 0, 0
+	if len(h.Conf) >= 4 {
+		mode, batch = common.AtoI(h.Conf[2]), common.AtoI(h.Conf[3])
+	}
+	r := newRunner(backlog, fk, mode, batch)
+	defer func() {
+		multi := false
+		for _, n := range r.fake.calls {
+			if n > 1 {
+				multi = true
+			}
+		}
+		if multi {
+			h.Tags = append(h.Tags, "batch_of_several")
+		}
+		if batch > 0 {
+			h.Tags = append(h.Tags, "batch_mode")
+		}
+		h.Tags = append(h.Tags, "addrmode"+common.I(mode))
+	}()
 	if rng == nil { // replay
 		h.Obs = nil
 		for _, op := range h.Ops {
@@ -260,7 +392,8 @@ func TestHarness(t *testing.T) {
 	} else {
 		rng := common.Rng(a.Seed, 0x11)
 		for i := 0; i < a.N; i++ {
-			h := &common.History{Conf: []string{common.I([]int{1, 2, 3, 128}[rng.IntN(4)]), common.I([]int{0, 0, 1, 2}[rng.IntN(4)])}}
+			h := &common.History{Conf: []string{common.I([]int{1, 2, 3, 128}[rng.IntN(4)]), common.I([]int{0, 0, 1, 2}[rng.IntN(4)]),
+				common.I(rng.IntN(3)), common.I([]int{0, 0, 2, 3, 8}[rng.IntN(5)])}}
 			synctest.Test(t, func(*testing.T) { runHistory(h, rng) })
 			w.Put(h)
 		}
